@@ -19,7 +19,8 @@ def fam_size(case, ref, unit):
 
 def fam_value(case, ref, unit):
     yield from faults.value_corruptions(case.b, ref.fields, unit["seed"])
-    yield from faults.boundary_values(case.b, ref.fields, unit["seed"])
+    if unit.get("value_valid", True):
+        yield from faults.boundary_values(case.b, ref.fields, unit["seed"])
     if unit.get("tier") == "thorough" and case.ndev == 0:
         for m, f in faults.value_corruptions(case.b, ref.fields, unit["seed"]):
             rm = ref_decode(case.root, m, cc=case.cc, enc=case.enc, lenient=True)
@@ -37,7 +38,7 @@ def fam_length(case, ref, unit):
 
 
 def fam_subst(case, ref, unit):
-    yield from faults.substitutions(case.b)
+    yield from faults.substitutions(case.b, tuple(unit.get("subst_alphabet", faults.SUBST)))
     if unit.get("tier") == "thorough" and len(case.b) <= 40 and case.ndev == 0:
         yield from faults.double_substitutions(case.b, alphabet=(0, 1, 0x7F, 0x80, 0xFF))
 
